@@ -113,6 +113,18 @@ def run(ctx):
                           dict(file=content.decode(), cmd="bash -O lastpipe -c '. util.sh; step_next FILE' (real robsd-step)", stderr=err.decode()[-300:]))
         if nonskipped:
             distinct.add(content)
+        # has_steps (trap_exit removes the invocation directory when it says no): must say yes exactly
+        # when step_next finds a resume point, or an interrupted invocation could not be resumed
+        hrc, hout, herr = sh.call('has_steps "%s"' % path)
+        reqs.append("hassteps " + hexb(content))
+        wants.append(str(hrc))
+        infos.append(info)
+        kinds["has_steps=%d" % hrc] = kinds.get("has_steps=%d" % hrc, 0) + 1
+        if (hrc == 0) != (rc == 0):
+            ctx.violation("has_steps says %s but step_next %s: the exit handler %s" % (
+                "yes" if hrc == 0 else "no", "finds a resume point" if rc == 0 else "fails",
+                "removes a resumable invocation" if rc == 0 else "keeps an invocation that cannot be resumed"),
+                dict(file=content.decode(), cmd="bash -O lastpipe -c '. util.sh; has_steps FILE; step_next FILE'", stderr=herr.decode()[-300:]))
 
     # -- end to end: real canvas runs, SIGKILLed right after write number k, then canvas -r
     nruns = ctx.n(8, 120)
@@ -239,7 +251,7 @@ def run(ctx):
         evaluations=len(reqs), distinct_nontrivial=len(distinct),
         rule="step files: 2/3 concretised slot files as the orchestrator leaves them (frontier empty / in flight -1 / failed / exit 0, skips before and after) "
              "plus perturbed ones, 1/3 arbitrary rows (id gaps, end anywhere, skipped tails); real util.sh step_next under bash with the real robsd-step is "
-             "compared with StepFile.stepNext, with OrchSeq.resumeAt on the slots, and with the property's decision table; non-trivial = distinct file with "
+             "compared with StepFile.stepNext, with OrchSeq.resumeAt on the slots, and with the property's decision table; util.sh has_steps (decides whether the exit handler removes the invocation directory) on the same files is compared with StepFile.hasSteps and must agree with step_next finding a resume point (dir_kept_iff_resumable); non-trivial = distinct file with "
              "a non-skipped row. End to end: real canvas -d with probe steps SIGKILLed right after a generated step-file write, then canvas -r; "
              "the steps the resumed run started are compared with the decision table and with OrchSeq.resumeWrites (%d runs)" % e2e,
         samples=[dict(request=q[:300], impl=w, model=a) for q, a, w in list(zip(reqs, ans, wants))[:: max(1, len(reqs) // 5)][:5]],
